@@ -88,6 +88,10 @@ def scripted(ident: str, out: str, u: str):
         raise urllib.error.HTTPError(u, 404, "Not Found", None, None)
     if out in ("reset", "timeout", "short"):
         return _BrokenResp(body_of(ident).encode(), out)
+    if out == "partial206":        # an answer that is not 200 and that urlopen does not turn into an error: not the licence text
+        return _Resp(body_of(ident).encode()[: len(body_of(ident)) // 3], code=206)
+    if out == "empty204":
+        return _Resp(b"", code=204)
     raise urllib.error.URLError("connection refused (scripted)")
 
 
@@ -190,7 +194,7 @@ def run(ctx: core.Ctx) -> int:
     rnd = random.Random(ctx.seed)
     ctx.assumptions += [
         "the network is urllib.request.urlopen replaced by a scripted stub (per identifier: body, HTTP 404, connection refused, "
-        "connection reset / timeout / short read while the body is being read)",
+        "connection reset / timeout / short read while the body is being read, answers 206 with a third of the text and 204 without any)",
         "the destination prescribed by the documentation is <root>/LICENSES/<id>.txt, or the --output path",
     ]
     mc = ctx.mc("Download", "MC_C19.cfg")
@@ -209,6 +213,9 @@ def run(ctx: core.Ctx) -> int:
         for kk, ident in enumerate(sorted(net)):      # a connection can also break while the text is being read
             if net[ident] == "conn" and (gi + kk) % 3:
                 net[ident] = ["reset", "timeout", "short"][(gi + kk) % 3 - 1 if (gi // 3) % 2 else 2]
+        for kk, ident in enumerate(sorted(net)):      # ... or the server answers with another 2xx status than 200
+            if net[ident] == "http" and (gi + kk) % 4 == 1:
+                net[ident] = ["partial206", "empty204"][(gi // 4) % 2]
         if "Nonexistent-1.0" in net:
             net["Nonexistent-1.0"] = "http"           # the SPDX repository has no such file
         existing = [pick[i[len("LICENSES/"):-4]] for i in g["existing"]]
